@@ -9,7 +9,8 @@ Del(S)  == [t |-> "delete", del |-> S]
 Exp(c)  == [t |-> "expire", cutoff |-> c]
 DelSnapInit(k) == [t |-> "delsnap", who |-> <<"init", k>>]
 DelSnapOf(a, i) == [t |-> "delsnap", who |-> <<a, i>>]
-Read == [t |-> "read"]
+Read == [t |-> "read", data |-> TRUE]
+Count == [t |-> "read", data |-> FALSE]
 
 A2 == {"c1", "c2"}
 A3 == {"c1", "c2", "c3"}
@@ -35,5 +36,16 @@ AR == {"c1", "c2", "r1"}
 Role_R == [a \in AR |-> IF a = "r1" THEN "reader" ELSE "committer"]
 Idx_R == [a \in AR |-> IF a = "c1" THEN 1 ELSE IF a = "c2" THEN 2 ELSE 3]
 Sep_R == [a \in AR |-> a]
+Prog_R2 == [a \in AR |-> IF a = "c1" THEN <<App2(1, 2)>> ELSE IF a = "c2" THEN <<Exp(2)>> ELSE <<Read, Count>>]
+ARS == {"c1", "r1"}
+Role_RS == [a \in ARS |-> IF a = "r1" THEN "reader" ELSE "committer"]
+Idx_RS == [a \in ARS |-> IF a = "c1" THEN 1 ELSE 2]
+Shared_RS == [a \in ARS |-> "h"]
+Prog_RS == [a \in ARS |-> IF a = "c1" THEN <<App(1), Del({961})>> ELSE <<Read, Read>>]
+Sep_RS == [a \in ARS |-> a]
+Prog_RA == [a \in ARS |-> IF a = "c1" THEN <<App2(1, 2)>> ELSE <<Read, Count>>]
+Prog_RB == [a \in ARS |-> IF a = "c1" THEN <<Del({961})>> ELSE <<Read, Read>>]
+Prog_RC == [a \in ARS |-> IF a = "c1" THEN <<[t |-> "multi", add |-> <<1>>, del |-> {961}, cutoff |-> 2]>> ELSE <<Read, Count>>]
+Prog_R3 == [a \in AR |-> IF a = "c1" THEN <<App(1)>> ELSE IF a = "c2" THEN <<Del({961})>> ELSE <<Read>>]
 Prog_R1 == [a \in AR |-> IF a = "c1" THEN <<App2(1, 2)>> ELSE IF a = "c2" THEN <<Del({961})>> ELSE <<Read, Read>>]
 =============================================================================
